@@ -97,7 +97,22 @@ pub fn check_file(a: &Analysis, obs: &mut Obs) -> Vec<Violation> {
     }
     // ---- movie duration = longest track in movie timescale (+-1)
     if let Some(&(_, longest)) = track_durs.iter().max_by_key(|x| x.1) {
-        if a.movie.mvhd.timescale == 1000 {
+        if a.movie.mvhd.timescale != 1000 {
+            // the declared movie duration only means something together with its timescale; the
+            // library's is 1000. Anything else (a version-1 header with shifted fields reads as 0)
+            // leaves the declared duration inconsistent with the tables.
+            let ts = a.movie.mvhd.timescale as u128;
+            let d = a.movie.mvhd.duration as u128;
+            let ok = ts != 0 && {
+                let in_ticks = d * 90_000 / ts;
+                let tol = 90_000 / ts + 1;
+                in_ticks + tol >= longest as u128 && in_ticks <= longest as u128 + tol
+            };
+            if !ok {
+                out.push(v("mvhd.duration|timescale".into(), format!("mvhd (version {}) declares duration {} at timescale {} but the longest track lasts {} ticks of 90 kHz", a.movie.mvhd.version, d, ts, longest)));
+            }
+            obs.count("movie_durations_recomputed", 1);
+        } else {
             let (lo, hi) = dur_ms(longest);
             let d = a.movie.mvhd.duration;
             if d + 1 < lo || d > hi + 1 {
